@@ -214,6 +214,56 @@ class Body:
                     work.append(s)
         return seen
 
+    def reach_flags(self, starts, avoid=(), cap=20000):
+        """like reach(), but follows a `switch` on a bool local only along the edge that agrees with the constant the
+        path assigned to it (the `_t = const true; goto join; switch(_t)` shape of `matches!`, `a || b` and let-else);
+        falls back to the plain over-approximation when the search budget is exhausted"""
+        avoid = set(avoid)
+        seen, out = set(), set()
+        work = [(s, frozenset()) for s in starts if s not in avoid]
+        steps = 0
+        while work:
+            b, st = work.pop()
+            if (b, st) in seen:
+                continue
+            seen.add((b, st))
+            out.add(b)
+            steps += 1
+            if steps > cap:
+                return self.reach(starts, avoid)
+            facts = dict(st)
+            for stt in self.stmts(b):
+                if "lhs" not in stt:
+                    continue
+                l = stt["lhs"]
+                if l[1]:
+                    continue
+                rv = stt["rv"]
+                cb = const_bool(rv["op"]) if rv.get("k") == "use" else None
+                if cb is not None:
+                    facts[l[0]] = bool(cb)
+                else:
+                    facts.pop(l[0], None)
+            t = self.term(b)
+            succs = list(self.succ[b])
+            if t["k"] == "switch":
+                pl = op_place(t["op"])
+                if pl is not None and not pl[1] and pl[0] in facts:
+                    tgt = t["otherwise"]
+                    for v, x in t["vals"]:
+                        if bool(v) == facts[pl[0]] and v in (0, 1):
+                            tgt = x
+                    if facts[pl[0]] and all(v == 0 for v, _ in t["vals"]):
+                        tgt = t["otherwise"]
+                    succs = [tgt]
+            elif t["k"] == "call" and t.get("dest") and not t["dest"][1]:
+                facts.pop(t["dest"][0], None)
+            nst = frozenset(facts.items())
+            for x in succs:
+                if x not in avoid:
+                    work.append((x, nst))
+        return out
+
     def reach_after(self, bb, avoid=(), avoid_edges=()):
         """Blocks reachable strictly after leaving `bb`."""
         starts = [s for s in self.succ[bb] if (bb, s) not in set(avoid_edges)]
